@@ -8,9 +8,15 @@
 // The listing is served by litestream's own mock.ReplicaClient through ltx.NewFileInfoSliceIterator (the iterator
 // every backend uses: filename order).  Only LTXFiles matters to the planner.
 //
-// Output (ndjson, one line per input line, same fields plus the real results):
+// Output -out (ndjson, one line per input line, same fields plus the real results):
 //
 //	{"id":7,"files":[...],"reqs":[...],"res":[{"err":"none"|"gap"|"notfound"|"both"|"other:<text>","plan":[[lvl,min,max,ts],...]},...]}
+//
+// Output -obs: the same observations, one JSON array of small integers per line, which is what the TLC judge
+// (RestorePlanObs.tla) reads - parsing objects and strings in TLC costs more than judging them:
+//
+//	[id, [file...], [req...], [[err, file...]...]]    file = ((lvl*100+min)*100+max)*100+ts, req = tx*100+T,
+//	                                                  err = 0 none | 1 gap | 2 notfound | 3 both | 4 other
 package main
 
 import (
@@ -110,9 +116,77 @@ func runOne(ctx context.Context, files [][4]int, tx, T int, logger *slog.Logger)
 	return res
 }
 
+func fileCode(f [4]int) int { return ((f[0]*100+f[1])*100+f[2])*100 + f[3] }
+
+func errCode(e string) int {
+	switch e {
+	case "none":
+		return 0
+	case "gap":
+		return 1
+	case "notfound":
+		return 2
+	case "both":
+		return 3
+	}
+	return 4
+}
+
+// nontrivial: the planner had to do something - a plan of >= 2 files, a gap error, or not-found although some
+// file reaches the target.
+func nontrivial(files [][4]int, q [2]int, r result) bool {
+	switch {
+	case r.Err == "none":
+		return len(r.Plan) >= 2
+	case r.Err == "gap":
+		return true
+	case r.Err == "notfound":
+		t := q[0]
+		if t < 1 {
+			t = 1
+		}
+		for _, f := range files {
+			if f[2] >= t {
+				return true
+			}
+		}
+	}
+	return false
+}
+
+func writeObs(w *bufio.Writer, o *outCase) {
+	fmt.Fprintf(w, "[%d,[", o.ID)
+	for i, f := range o.Files {
+		if i > 0 {
+			w.WriteByte(',')
+		}
+		fmt.Fprintf(w, "%d", fileCode(f))
+	}
+	w.WriteString("],[")
+	for i, q := range o.Reqs {
+		if i > 0 {
+			w.WriteByte(',')
+		}
+		fmt.Fprintf(w, "%d", q[0]*100+q[1])
+	}
+	w.WriteString("],[")
+	for i, r := range o.Res {
+		if i > 0 {
+			w.WriteByte(',')
+		}
+		fmt.Fprintf(w, "[%d", errCode(r.Err))
+		for _, f := range r.Plan {
+			fmt.Fprintf(w, ",%d", fileCode(f))
+		}
+		w.WriteByte(']')
+	}
+	w.WriteString("]]\n")
+}
+
 func main() {
 	in := flag.String("in", "", "input ndjson")
-	out := flag.String("out", "", "output ndjson")
+	out := flag.String("out", "", "output ndjson (readable)")
+	obs := flag.String("obs", "", "output ndjson (integers, for the TLC judge)")
 	flag.Parse()
 	fin, err := os.Open(*in)
 	if err != nil {
@@ -126,6 +200,14 @@ func main() {
 		os.Exit(2)
 	}
 	w := bufio.NewWriterSize(fout, 1<<20)
+	fobs, err := os.Create(*obs)
+	if err != nil {
+		fmt.Fprintln(os.Stderr, err)
+		os.Exit(2)
+	}
+	wobs := bufio.NewWriterSize(fobs, 1<<20)
+	nontriv := 0
+	others := map[string]int{}
 	logger := slog.New(slog.NewTextHandler(io.Discard, &slog.HandlerOptions{Level: slog.LevelError}))
 	ctx := context.Background()
 	sc := bufio.NewScanner(fin)
@@ -147,9 +229,27 @@ func main() {
 		}
 		o := outCase{ID: c.ID, Files: c.Files, Reqs: c.Reqs, Res: make([]result, 0, len(c.Reqs))}
 		for _, q := range c.Reqs {
-			o.Res = append(o.Res, runOne(ctx, c.Files, q[0], q[1], logger))
+			if q[0] < 0 || q[0] > 99 || q[1] < 0 || q[1] > 99 {
+				fmt.Fprintln(os.Stderr, "request out of range")
+				os.Exit(2)
+			}
+			r := runOne(ctx, c.Files, q[0], q[1], logger)
+			o.Res = append(o.Res, r)
 			evals++
+			if nontrivial(c.Files, q, r) {
+				nontriv++
+			}
+			if errCode(r.Err) == 4 && len(others) < 5 {
+				others[r.Err]++
+			}
 		}
+		for _, f := range c.Files {
+			if f[0] < 0 || f[0] > 9 || f[1] < 1 || f[1] > 99 || f[2] < 1 || f[2] > 99 || f[3] < 0 || f[3] > 99 {
+				fmt.Fprintln(os.Stderr, "file out of range")
+				os.Exit(2)
+			}
+		}
+		writeObs(wobs, &o)
 		if err := enc.Encode(&o); err != nil {
 			fmt.Fprintln(os.Stderr, err)
 			os.Exit(2)
@@ -165,5 +265,11 @@ func main() {
 		os.Exit(2)
 	}
 	fout.Close()
-	fmt.Printf("{\"cases\":%d,\"evals\":%d}\n", cases, evals)
+	if err := wobs.Flush(); err != nil {
+		fmt.Fprintln(os.Stderr, err)
+		os.Exit(2)
+	}
+	fobs.Close()
+	oth, _ := json.Marshal(others)
+	fmt.Printf("{\"cases\":%d,\"evals\":%d,\"nontrivial\":%d,\"other_errors\":%s}\n", cases, evals, nontriv, oth)
 }
